@@ -14,13 +14,13 @@ CHECKS = {
             "trusted: the 30-line map model, the harness; background flush/compaction timing is whatever the scheduler produced (counted, not controlled)",
             "DESIGN.md 5/C01"),
     "C02": ("fault_enumeration",
-            "process-kill enumeration at tag-guarded hook sites (SIGKILL to self at (site, n)) + prefix oracle over an issue/ack journal, multi-cycle continuation",
+            "process-kill enumeration at tag-guarded hook sites (SIGKILL to self at (site, n)) + in-process parked-goroutine directory snapshots (a maintenance or the writing goroutine is parked at a hook site while the other side goes on, the directory is copied) + strace syscall-order monitor; prefix oracle over an issue/ack journal, multi-cycle continuation",
             "A child process runs a deterministic write program; it is killed at PRNG-chosen (site, hit) pairs drawn from a profile of all hook sites (WAL append/sync/close, memtable insert, "
             "rotation, SSTable write/rename, compaction swap, engine close); a fresh engine must open the directory and equal model(prefix j) for an admissible j; the directory is continued for further cycles.",
-            "SIGKILL keeps the page cache: lost-fsync is not visible to kills; a kill landing while another goroutine is inside write(2) to the log is excluded by a hook barrier (torn writes: C03/C10)",
+            "SIGKILL keeps the page cache: lost-fsync is not visible to kills (the strace syscall-order cases judge fsync-before-ack instead); a kill landing while another goroutine is inside write(2) to the log is excluded by a hook barrier (torn writes: C03/C10); a directory copy is a process-death image only because every goroutine is parked, waiting or idle at that instant",
             "DESIGN.md 5/C02"),
     "C03": ("fault_enumeration",
-            "kill enumeration inside the commit path + concurrent-observer monitor + torn-final-write truncation + failure/rollback trace checks",
+            "kill enumeration inside the commit path + concurrent-observer monitor + torn-final-write truncation + failure/rollback trace checks + I/O-fault runs (strace -e inject on fsync/write/rename/unlink) for failed commits",
             "Crash atomicity of whole transactions (kills at the hook sites inside AppendBatch/ApplyBatch/Commit, transactions up to ~150KB), observers that read group keys in a known order while "
             "transactions commit (with yields between the memtable inserts of a batch), log cuts inside the byte range of a final commit, commits on a closed engine, rollbacks, buffer reuse.",
             "torn writes are simulated by truncation of a cleanly stopped database; plain (non-transactional) scans concurrent with a commit are outside the statement",
@@ -38,10 +38,10 @@ CHECKS = {
             "deletion markers surfaced by engine iterators are legal; thorough tier runs under the race detector",
             "DESIGN.md 5/C05"),
     "C06": ("exploration",
-            "porcupine linearizability check (partitioned by key, register model with 'absent', failed writes as no-ops) of client-boundary histories recorded under rotation-heavy configurations with injected yields",
+            "porcupine linearizability check (partitioned by key, register model with 'absent', failed writes as no-ops) of client-boundary histories recorded under rotation-heavy configurations with injected yields + I/O-fault runs (strace -e inject fails fsync/write/rename/unlink of the database files; acknowledged-units-only model before close and after reopen)",
             "4-12 clients on 2-6 keys with unique values, memtables of 1 byte..4KB (switch/flush/rotation every few writes), background compaction and an extra flush/compaction goroutine, yields at "
             "the hook sites between log append, memtable insert, switch, rotation and flush publication; a final read of every key pins exactly-once.",
-            "many short histories; Close concurrent with calls out of scope",
+            "many short histories; Close concurrent with calls out of scope; which call strace fails is counted per thread and therefore not reproducible from the seed (the oracle depends only on the journal of acknowledged/failed units)",
             "DESIGN.md 5/C06"),
     "C07": ("exploration",
             "Go race detector (-race, checkptr) over a reflection-driven stress of every public entry point + hang watchdog with goroutine dump + post-stress lock probe",
@@ -82,7 +82,7 @@ CHECKS = {
             "apply-log monitor (recording applier + prefix/order oracle) under generated hostile delivery schedules, at the batch-applier level and with the real Replica against a scripted gRPC primary; codec round trips",
             "Histories of single operations and transactions delivered with splits, duplicates, overlaps, gaps, swaps, stream resets; every applied entry must be the next history entry (or an idempotent "
             "stutter inside the current transaction), nothing skipped after an honest tail, reported applied sequence monotone and never ahead.",
-            "messages cut at unit boundaries; mid-transaction splits are a separate class (finding D44); apply errors not injected",
+            "messages cut at unit boundaries; mid-transaction splits are a separate class (finding D44); transient apply errors injected in every 8th applier case",
             "DESIGN.md 5/C13"),
     "C14": ("exploration",
             "bounded-progress monitor over real primary/replica managers on loopback: scenario matrix (workload x join time x restart/link cut x 1-2 replicas), full-scan equality (wait ends after 60s without progress) and again 2s later",
